@@ -5,4 +5,6 @@ From Coq Require Extraction ExtrOcamlBasic.
 From Codec Require Script.
 From Topics Require Script.
 From Ackq Require Model.
-Extraction "model.ml" Codec.Script.run_codec Topics.Script.run_topics Ackq.Model.run_ackq.
+From Ring Require Seq LiveScript.
+Extraction "model.ml" Codec.Script.run_codec Topics.Script.run_topics Ackq.Model.run_ackq Ring.Seq.run_ring
+  Ring.LiveScript.run_live.
